@@ -81,8 +81,8 @@ struct Converter<MsgPackBinary> : private detail::VariantAttorney {
       if (size + 3 == n)
         return MsgPackBinary(p + 3, size);
     } else if (n >= 5 && p[0] == 0xc6) {  // bin 32
-      size_t size =
-          size_t(p[1] << 24) | size_t(p[2] << 16) | size_t(p[3] << 8) | p[4];
+      size_t size = size_t(p[1]) << 24 | size_t(p[2]) << 16 |
+                    size_t(p[3]) << 8 | size_t(p[4]);
       if (size + 5 == n)
         return MsgPackBinary(p + 5, size);
     }
